@@ -687,9 +687,9 @@ Proof.
     destruct (0 + length bs <=? TL c); [|discriminate]. inversion H; subst; clear H.
     cbn [s_tasks s_heap]. rewrite aget_aset_same. cbn [t_tlsz t_data]. rewrite E2. unfold tl_off in *. cbn [t_big].
     rewrite Nat.add_0_r. rewrite <- Hl. f_equal. apply slice_upd_same. lia.
-  - destruct (t_slot t) as [b|]; [|discriminate]. rewrite Hv in H.
+  - destruct (t_slot t) as [b|] eqn:Hs; [|discriminate]. rewrite Hv in H.
     destruct (0 + length bs <=? length old); [|discriminate]. inversion H; subst; clear H.
-    cbn [s_tasks s_heap]. rewrite Ht, E2. cbn beta iota. rewrite aget_aset_same. f_equal.
+    cbn [s_tasks s_heap]. rewrite Ht, E2. rewrite Hs. rewrite aget_aset_same. f_equal.
     unfold upd_range. cbn [firstn plus app]. rewrite Hl, skipn_all. apply app_nil_r.
 Qed.
 
